@@ -72,6 +72,13 @@ func H_C19_lww() {
 	f, err := sorting.FirstWriteWins(a, b)
 	vx.Assert("C19", err == nil, "FirstWriteWins returns no error")
 	vx.Assert("C19", vx.Sgn(f) == -vx.Sgn(ab), "FirstWriteWins is the exact reverse of LastWriteWins")
+	// the hash-tiebreak ordering, the default ordering and the clock comparison agree wherever the (id, time)
+	// pairs differ: the hash only ever breaks a full clock tie (seed C19-k)
+	hab, _ := sorting.SortByEntryHash(a, b)
+	vx.Assert("C19", vx.Implies(dAB, vx.Sgn(hab) == vx.Sgn(ab)), "SortByEntryHash agrees with LastWriteWins when clock id/time pairs are distinct")
+	vx.Assert("C19", vx.Implies(dAB, vx.Sgn(a.GetClock().Compare(b.GetClock())) == vx.Sgn(ab)), "LastWriteWins agrees with LamportClock.Compare when clock id/time pairs are distinct")
+	nzh, nzherr := sorting.NoZeroes(sorting.SortByEntryHash)(a, b)
+	vx.Assert("C19", nzherr == nil && vx.Sgn(nzh) == vx.Sgn(hab), "NoZeroes(SortByEntryHash) is SortByEntryHash on distinct entries")
 	nz, nzerr := sorting.NoZeroes(sorting.LastWriteWins)(a, b)
 	vx.Assert("C19", vx.Implies(dAB, vx.And(nzerr == nil, vx.Sgn(nz) == vx.Sgn(ab))), "NoZeroes passes a non-zero verdict through")
 }
